@@ -15,22 +15,23 @@ open SafeNet.ArgTable SafeNet.Upgrade SafeNet.Gen.Upgrade
 /-! ## The tables with every field traced back to the expressions of `add_node` -/
 
 /-- install table over `add_node`'s expressions -/
-def installResolved : List Entry := installTable.map (Entry.subst viaBuilder)
+def installResolved : List Entry := (installTable.map (Entry.subst viaBuilder)).map (Entry.subst viaAddLocals)
 
 /-- upgrade table over `add_node`'s expressions: through `UpgradeOptions { .. }`, then through `NodeServiceData { .. }` -/
 def upgradeResolved : List Entry :=
-  (upgradeTable.map (Entry.subst viaUpgradeOptions)).map (Entry.subst viaData)
+  ((upgradeTable.map (Entry.subst viaUpgradeOptions)).map (Entry.subst viaData)).map (Entry.subst viaAddLocals)
 
 theorem buildInstall_eq (σ : Valuation) : buildInstall σ = interp evmDisplay installResolved σ := by
-  simp [buildInstall, builderOf, installResolved, interp_subst]
+  unfold buildInstall builderOf installResolved
+  rw [interp_subst, interp_subst]
 
 theorem buildUpgrade_eq (σ : Valuation) : buildUpgrade (recordOf σ) = interp evmDisplay upgradeResolved σ := by
   unfold buildUpgrade recordOf upgradeResolved
-  rw [interp_subst, interp_subst]
+  rw [interp_subst, interp_subst, interp_subst]
 
-/-- The finite fact: entry for entry (guard, option name, value source, rendering) the upgrade table is a
-rearrangement of the install table. -/
-theorem tables_perm : upgradeResolved.Perm installResolved := by decide
+/-- The finite fact: entry for entry (guard, option name, value source with its case foldings in normal
+form, rendering) the upgrade table is a rearrangement of the install table. -/
+theorem tables_perm : (upgradeResolved.map Entry.norm).Perm (installResolved.map Entry.norm) := by decide
 
 /-! ## Clause 1: the regenerated definition equals the installed one -/
 
@@ -38,20 +39,21 @@ theorem tables_perm : upgradeResolved.Perm installResolved := by decide
 from the registry entry `add_node` recorded are the same multiset of `(option, value)` items (and
 subcommand word) as the arguments written at installation. -/
 theorem upgrade_args_equiv (σ : Valuation) : (buildUpgrade (recordOf σ)).Perm (buildInstall σ) := by
-  rw [buildInstall_eq, buildUpgrade_eq]
+  rw [buildInstall_eq, buildUpgrade_eq, ← interp_norm evmDisplay installResolved, ← interp_norm evmDisplay upgradeResolved]
   exact interp_perm evmDisplay σ tables_perm
 
-def installCtxResolved : List (String × Src) := installCtx.map fun kv => (kv.1, kv.2.subst viaBuilder)
+def installCtxResolved : List (String × Src) :=
+  installCtx.map fun kv => (kv.1, ((kv.2.subst viaBuilder).subst viaAddLocals).norm)
 def upgradeCtxResolved : List (String × Src) :=
-  upgradeCtx.map fun kv => (kv.1, (kv.2.subst viaUpgradeOptions).subst viaData)
+  upgradeCtx.map fun kv => (kv.1, (((kv.2.subst viaUpgradeOptions).subst viaData).subst viaAddLocals).norm)
 
 theorem installSettings_eq (σ : Valuation) :
     installSettings σ = installCtxResolved.map fun kv => (kv.1, evalSrc σ kv.2) := by
-  simp [installSettings, ctxOf, installCtxResolved, builderOf, evalSrc_subst, Function.comp_def]
+  simp [installSettings, ctxOf, installCtxResolved, builderOf, evalSrc_subst, evalSrc_norm, Function.comp_def]
 
 theorem upgradeSettings_eq (σ : Valuation) :
     upgradeSettings (recordOf σ) = upgradeCtxResolved.map fun kv => (kv.1, evalSrc σ kv.2) := by
-  simp [upgradeSettings, ctxOf, upgradeCtxResolved, recordOf, evalSrc_subst, Function.comp_def]
+  simp [upgradeSettings, ctxOf, upgradeCtxResolved, recordOf, evalSrc_subst, evalSrc_norm, Function.comp_def]
 
 theorem ctx_same_except_env :
     upgradeCtxResolved.filter (fun kv => kv.1 != "environment") = installCtxResolved.filter (fun kv => kv.1 != "environment") := by
@@ -79,23 +81,29 @@ theorem install_environment (σ : Valuation) :
   simp [this, evalSrc]
 
 /-- The environment of the regenerated definition is the `--env` given to `antctl upgrade`, else the
-registry-wide environment (exact characterisation). -/
-theorem upgrade_environment (σ : Valuation) (provided prev : Option String) :
-    (upgradeSettings (recordOf (withEnv σ provided prev))).lookup "environment" =
-      some (.opt (envAtUpgrade σ provided prev)) := by
+registry-wide environment as `add_node` left it when it returned in the way `out` (exact characterisation). -/
+theorem upgrade_environment (σ : Valuation) (provided prev : Option AStr) (out : AddOutcome) :
+    (upgradeSettings (recordOf (withEnv σ provided prev out))).lookup "environment" =
+      some (.opt (envAtUpgrade σ provided prev out)) := by
   rw [upgradeSettings_eq, lookup_map_snd]
   have : upgradeCtxResolved.lookup "environment" = some (.var ["#env"]) := by decide
   simp [this, evalSrc, withEnv]
 
-/-- **upgrade_args_equiv (environment).** Without an `--env` on the upgrade command line, the service keeps
-the environment it was installed with — provided the registry-wide environment is this service's one
-(it was installed with `--env`, or no earlier `add` had stored one). -/
-theorem upgrade_environment_kept (σ : Valuation) (prev env : Option String)
+/-- `add_node` stores the registry-wide environment before the first install, so it is recorded however
+the add ends (all installed / some installs failed / a `?` inside the loop returned early). -/
+theorem env_stored_whatever_the_outcome (out : AddOutcome) : envStored registryEnvStore out = true := by
+  cases out <;> decide
+
+/-- **upgrade_args_equiv (environment).** Without an `--env` on the upgrade command line, every service
+that got installed — also by an `add` that failed part-way — keeps the environment it was installed
+with, provided the registry-wide environment is this add's one (it was given `--env`, or no earlier
+`add` had stored one). -/
+theorem upgrade_environment_kept (σ : Valuation) (prev env : Option AStr) (out : AddOutcome)
     (henv : σ envPath = .opt env) (hreg : env.isSome ∨ prev = none) :
-    (upgradeSettings (recordOf (withEnv σ none prev))).lookup "environment" =
+    (upgradeSettings (recordOf (withEnv σ none prev out))).lookup "environment" =
       (installSettings σ).lookup "environment" := by
   rw [upgrade_environment, install_environment, henv]
-  have hflag : registryEnvFromInstall = true := by decide
+  have hflag := env_stored_whatever_the_outcome out
   cases env with
   | some e => simp [envAtUpgrade, registryEnvAfterInstall, hflag, henv]
   | none =>
@@ -104,15 +112,16 @@ theorem upgrade_environment_kept (σ : Valuation) (prev env : Option String)
     · simp [envAtUpgrade, registryEnvAfterInstall, hflag, henv, h]
 
 /-- … and an `--env` given to `antctl upgrade` is the explicit change the property allows. -/
-theorem upgrade_environment_override (σ : Valuation) (e : String) (prev : Option String) :
-    (upgradeSettings (recordOf (withEnv σ (some e) prev))).lookup "environment" = some (.opt (some e)) := by
+theorem upgrade_environment_override (σ : Valuation) (e : AStr) (prev : Option AStr) (out : AddOutcome) :
+    (upgradeSettings (recordOf (withEnv σ (some e) prev out))).lookup "environment" = some (.opt (some e)) := by
   rw [upgrade_environment]; rfl
 
 /-- The other path by which the registry-wide environment reaches a service (documented behaviour, not
 judged by the property's per-service quantifier): installed without `--env` into a registry that already
 holds one, the service inherits it at upgrade. -/
 example : ∃ σ : Valuation, σ envPath = .opt none ∧
-    (upgradeSettings (recordOf (withEnv σ none (some "OLD=1")))).lookup "environment" ≠ (installSettings σ).lookup "environment" := by
+    (upgradeSettings (recordOf (withEnv σ none (some [.plain "OLD=1"]) .allInstalled))).lookup "environment" ≠
+      (installSettings σ).lookup "environment" := by
   refine ⟨fun _ => .opt none, rfl, ?_⟩
   rw [upgrade_environment, install_environment]
   decide
@@ -279,7 +288,7 @@ def intent : List (Option String × Guard × Option (Src × Render)) := [
   (some "ip", .isSome (.var ["options", "node_ip"]), some (.var ["options", "node_ip"], .display)),
   (some "port", .isSome (.var ["node_port"]), some (.var ["node_port"], .display)),
   (some "metrics_server_port", .isSome (.var ["metrics_free_port"]), some (.var ["metrics_free_port"], .display)),
-  (some "owner", .isSome (.var ["owner"]), some (.var ["owner"], .display)),
+  (some "owner", .isSome (.fold .lower (.var ["options", "owner"])), some (.fold .lower (.var ["options", "owner"]), .display)),
   (some "max_archived_log_files", .isSome (.var ["options", "max_archived_log_files"]),
     some (.var ["options", "max_archived_log_files"], .display)),
   (some "max_log_files", .isSome (.var ["options", "max_log_files"]), some (.var ["options", "max_log_files"], .display)),
@@ -334,17 +343,22 @@ theorem parse_upgrade_accepted (σ : Valuation) (v : String)
 def exampleRecord : Valuation := fun p =>
   if p = ["options", "evm_network"] then .evm "Custom"
   else if p = ["options", "home_network"] then .bool true
-  else if p = ["options", "peers_args", "addrs"] then .list ["a", "b"]
-  else if p = ["options", "evm_network", "rpc_url_http"] then .opt (some "http://x/")
-  else if p = ["options", "evm_network", "payment_token_address"] then .opt (some "0x1")
-  else if p = ["options", "evm_network", "data_payments_address"] then .opt (some "0x2")
-  else if p = ["rpc_socket_addr"] then .opt (some "127.0.0.1:1")
+  else if p = ["options", "peers_args", "addrs"] then .list [[.plain "a"], [.plain "b"]]
+  else if p = ["options", "owner"] then .opt (some [.uniUp "Ü" "ü", .plain "n", .asciiUp "A" "a", .plain "l"])
+  else if p = ["options", "evm_network", "rpc_url_http"] then .opt (some [.plain "http://x/"])
+  else if p = ["options", "evm_network", "payment_token_address"] then .opt (some [.plain "0x1"])
+  else if p = ["options", "evm_network", "data_payments_address"] then .opt (some [.plain "0x2"])
+  else if p = ["rpc_socket_addr"] then .opt (some [.plain "127.0.0.1:1"])
   else .opt none
 
 example : (match parseArgs (buildInstall exampleRecord) with
-    | .ok p => (p.top "home_network", p.top "addrs", p.top "first", p.sub.map (fun s => (s.1, s.2 "rpc_url")))
-    | .error _ => (.absent, .absent, .absent, none)) =
-    (.set, .many ["a", "b"], .absent, some ("EvmCustom", .one "http://x/")) := by decide
+    | .ok p => (p.top "home_network", p.top "addrs", p.top "first", p.top "owner", p.sub.map (fun s => (s.1, s.2 "rpc_url")))
+    | .error _ => (.absent, .absent, .absent, .absent, none)) =
+    (.set, .many ["a", "b"], .absent, .one "ünal", some ("EvmCustom", .one "http://x/")) := by decide
+
+/-- The owner is written in lower case (Unicode folding) at installation and at upgrade alike. -/
+example : (buildUpgrade (recordOf exampleRecord)).filter (fun it => it.flag == some "owner") = [⟨some "owner", .one "ünal"⟩] ∧
+    (buildInstall exampleRecord).filter (fun it => it.flag == some "owner") = [⟨some "owner", .one "ünal"⟩] := by decide
 
 /-- … and the conflicting record `--first` + `--peer` is rejected by the parser (as by clap). -/
 example : (match parseArgs (buildInstall (fun p => if p = ["options", "peers_args", "first"] then .bool true else exampleRecord p)) with
@@ -353,6 +367,7 @@ example : (match parseArgs (buildInstall (fun p => if p = ["options", "peers_arg
 #print axioms SafeNet.Props.C20.upgrade_args_equiv
 #print axioms SafeNet.Props.C20.upgrade_settings_equiv
 #print axioms SafeNet.Props.C20.upgrade_environment
+#print axioms SafeNet.Props.C20.env_stored_whatever_the_outcome
 #print axioms SafeNet.Props.C20.upgrade_environment_kept
 #print axioms SafeNet.Props.C20.upgrade_environment_override
 #print axioms SafeNet.Props.C20.every_flag_declared
